@@ -44,14 +44,20 @@ theorem deEventsAt_text_clean : ∀ (q : List QEv) (d : Nat) (raw : Bytes),
     Ev.text raw ∈ deEventsAt d q → containsSub [93, 93, 62] raw = false
   | [], _, _, h => by simp [deEventsAt] at h
   | .start n r :: t, d, raw, h => by
-    simp only [deEventsAt, List.mem_cons, reduceCtorEq, false_or] at h
-    exact deEventsAt_text_clean t (d + 1) raw h
+    simp only [deEventsAt] at h
+    split at h
+    · simp only [List.mem_cons, reduceCtorEq, false_or] at h
+      exact deEventsAt_text_clean t (d + 1) raw h
+    · simp at h
   | .stop n :: t, d, raw, h => by
     simp only [deEventsAt, List.mem_cons, reduceCtorEq, false_or] at h
     exact deEventsAt_text_clean t (d - 1) raw h
   | .empty n r :: t, d, raw, h => by
-    simp only [deEventsAt, List.mem_cons, reduceCtorEq, false_or] at h
-    exact deEventsAt_text_clean t d raw h
+    simp only [deEventsAt] at h
+    split at h
+    · simp only [List.mem_cons, reduceCtorEq, false_or] at h
+      exact deEventsAt_text_clean t d raw h
+    · simp at h
   | .text x :: t, d, raw, h => by
     simp only [deEventsAt] at h
     split at h
